@@ -7,6 +7,18 @@ from bare_script.library import SCRIPT_FUNCTIONS
 LIB_NAMES = frozenset(SCRIPT_FUNCTIONS)
 
 
+def norm_error(message):
+    """runtime error message -> what the properties actually quote: the documented phrase (+ the name it mentions), so that a
+    re-worded message is not an alarm"""
+    import re
+    message = str(message)
+    for phrase in ('Exceeded maximum script statements', 'Unknown jump label', 'Undefined function', 'Include of'):
+        if message.startswith(phrase):
+            m = re.search(r'"([^"]*)"', message)
+            return phrase + (' ' + m.group(1) if m and phrase != 'Exceeded maximum script statements' else '')
+    return message
+
+
 def untraced():
     """CrossHair's NoTracing when running under CrossHair (skips opcode interception for concrete bookkeeping), else a no-op."""
     if 'crosshair.tracers' in sys.modules:
